@@ -1,12 +1,24 @@
-(** C08, scanning primitives: [lowest_mapped] is sound — the address it returns
-    lies in the range, is mapped by the architectural walk (C02's [arch_walk]),
-    and the returned step holds its translation.  Generic in the PTE format:
-    it uses only the per-format simulation [sim] of C02 (proved there for
-    eleven formats).
+(** C08, scanning primitives: the specifications of [lowest_mapped],
+    [lowest_unmapped], [highest_mapped] and [highest_linear] over C02's
+    architectural walk of the table tree ([arch_levels]).  Generic in the PTE
+    format: only the per-format simulation [sim] of C02 is used (proved there
+    for eleven formats); huge-page directories are excluded.
 
-    Invariant of the scan: the step is exactly the state of the walk of [*addr]
+    - [lowest_mapped]: the answer is the least mapped address of the range
+      (it is mapped, the step holds its translation, everything before it is
+      unmapped); "not present" means nothing in the range is mapped.
+    - [lowest_unmapped]: the least unmapped address; everything before it is mapped.
+    - [highest_mapped]: the greatest mapped address, scanning down.
+    - [highest_linear]: the relation [lin_runs] (mapped runs whose first
+      address has the offset asked for), and the closed form for a single run.
+
+    Invariant of the scans: the step is exactly the state of the walk of [*addr]
     that has descended to the current table ([s_idx] is the index split of
-    [*addr], [s_base] the table the architectural walk of [*addr] is at). *)
+    [*addr], [s_base] the table the architectural walk of [*addr] is at);
+    skipping an entry is the index split of the first address of the next
+    entry ([split_next_entry]) resp. of the last address of the previous one
+    ([split_prev_entry]).  The loops share their tails ([after_up],
+    [after_down]); the postconditions are instances of [gpost] / [gpost_d]. *)
 From Coq Require Import NArith ZArith List Bool Lia.
 From KdV Require Import Base.Wrap64 Xlat.Step Xlat.ArchSpec Xlat.XBits Xlat.WalkProofs Sys.ScanModel.
 Import ListNotations.
@@ -284,6 +296,22 @@ Proof.
            replace (total fs) with (lo fs l + (total fs - lo fs l)) by lia.
            apply div_prev_above; [exact Hf|lia].
         -- rewrite !split_fields_nth by lia. apply field_prev_above; try lia; exact Hf.
+Qed.
+
+(** an address the architectural walk produces is a 64-bit value *)
+Lemma arch_levels_lt readmem af tgt mask fs va : forall l tas tbase a p,
+  arch_levels readmem af tgt mask fs va l tas tbase = (OK, Some (a, p)) -> p < 2^64.
+Proof.
+  assert (Hw : forall x a p, (OK, Some (tgt, w x)) = (OK, Some (a, p)) -> p < 2^64).
+  { intros x a p H. injection H as _ <-. rewrite <- W_pow. apply w_lt. }
+  induction l as [|l IH]; intros tas tbase a p; cbn [arch_levels].
+  - apply Hw.
+  - destruct (rd_entry _ _ _ _ _) as [pte|e]; [|discriminate].
+    destruct (af_decode af tgt fs (S l) pte va) as [ta tb|b sz|ta tb sh| |]; try discriminate.
+    + apply IH.
+    + apply Hw.
+    + destruct (rd_entry _ _ _ _ _) as [hpte|e]; [|discriminate].
+      destruct (af_decode af tgt fs 1 hpte va); try discriminate; apply Hw.
 Qed.
 
 Section ScanSound.
